@@ -33,4 +33,15 @@ func init() {
 	addPlan(&propertyPlan{ID: "C05", Scenarios: []scenarioPlan{{Name: "c05_teardown", Quick: 40000, Thorough: 2500000}, {Name: "c06_handler", Quick: 5000, Thorough: 250000}, {Name: "c09_callbacks", Quick: 5000, Thorough: 250000}}, Rule: lifeRule, Assume: lifeAssume, Real: commonReal, Stub: commonStub})
 	addPlan(&propertyPlan{ID: "C06", Scenarios: []scenarioPlan{{Name: "c06_handler", Quick: 40000, Thorough: 2500000}, {Name: "c05_teardown", Quick: 5000, Thorough: 250000}, {Name: "c09_callbacks", Quick: 5000, Thorough: 250000}}, Rule: lifeRule, Assume: lifeAssume, Real: commonReal, Stub: commonStub})
 	addPlan(&propertyPlan{ID: "C09", Scenarios: []scenarioPlan{{Name: "c09_callbacks", Quick: 40000, Thorough: 2500000}, {Name: "c05_teardown", Quick: 5000, Thorough: 250000}, {Name: "c06_handler", Quick: 5000, Thorough: 250000}}, Rule: lifeRule, Assume: lifeAssume, Real: commonReal, Stub: commonStub})
+
+	addPlan(&propertyPlan{ID: "C08",
+		Scenarios: []scenarioPlan{{Name: "c08_flush", Quick: 30000, Thorough: 2000000}},
+		Rule: "one run = one seeded execution of a writer issuing 1-4 Write/Flush calls (1 byte .. 10x the socket buffer, with no/relative/absolute write timeout) on a connection built one of three ways over a socket pair with 4-16 KB buffers, a peer that drains promptly/slowly/not at all/closes, an optional second concurrent Flush caller and an optional local closer, under kernel short writes, EAGAIN and epoll faults; non-trivial = more than half a socket buffer was submitted; distinct = distinct step-trace hash",
+		Assume: []string{"one writer per connection; the second goroutine only calls Flush", "after ErrWriteTimeout the writer stops submitting (netpoll documents that the unsent tail is left to the poller)", "AF_UNIX stream sockets on the real kernel"},
+		Real:   commonReal, Stub: commonStub})
+	addPlan(&propertyPlan{ID: "C04",
+		Scenarios: []scenarioPlan{{Name: "c04_stream", Quick: 20000, Thorough: 1000000}, {Name: "c08_flush", Quick: 5000, Thorough: 200000}, {Name: "c06_handler", Quick: 5000, Thorough: 200000}},
+		Rule: "one run = two real netpoll connections over one socket pair (default, 4 KB or 16 KB buffers); the sender submits 1..70000 bytes of a position-keyed stream through a seeded mix of Write / Malloc / WriteBinary / WriteString / WriteByte / WriteDirect / Append + Flush in seeded chunkings and then closes or not; the receiver is a reader task with a seeded mix and pace of Next/Peek+Skip/ReadBinary/ReadString/ReadByte/Slice/Read/Skip/Release or an OnRequest handler; kernel short writes/reads, send EAGAIN, epoll batch clipping and EINTR; non-trivial = more than 300 bytes; distinct = distinct step-trace hash",
+		Assume: []string{"one reader and one writer per connection", "AF_UNIX stream sockets on the real kernel (TCP not covered)", "the guarantee is checked up to the first reported write error"},
+		Real:   commonReal, Stub: commonStub})
 }
